@@ -1,7 +1,8 @@
 (* correspondence cases for C19: what the harness observed on the real
    interpreter against Model (otto's error machinery) and Spec (the property) *)
 From Coq Require Import ZArith Bool List.
-From Otto Require Import Common.Corr C19.Model C19.Spec.
+From Otto Require Import Common.Corr.
+From Otto Require Export C19.Model C19.Spec.
 Import ListNotations.
 Open Scope Z_scope.
 
@@ -9,22 +10,54 @@ Inductive case :=
 (* a generated program: files (name id, bytes), trace limit, the active calls
    outermost first with the events of each frame, the raise; observed: the
    frames printed by Error.String(), and whether its first line is Error() *)
-| CTrace (files : file_table) (limit : Z) (levels : list level) (r : raise)
+| CTrace (landed : Z) (files : file_table) (limit : Z) (levels : list level) (r : raise)
          (hdr_ok : bool) (obs : list (Z * sloc))
 (* the same program, class side: kind id; observed
    [class of Run's error; class named by e.name; e instanceof its constructor;
-    e instanceof Error; prototype is the constructor's prototype; [[Class]] is Error;
-    typeof e.message is string; e.message non-empty; String(e) = name: message = Error();
-    e.stack = Error.String()] *)
-| CFacts (kind : Z) (obs : list Z)
+    e instanceof Error; prototype is the constructor's prototype and e.constructor is it;
+    [[Class]] is Error; e.message is a non-empty string;
+    String(e) = name: message = Error(); e.stack = Error.String()] *)
+| CFacts (landed : Z) (kind : Z) (obs : list Z)
 (* file.File.Position on a text at an offset *)
 | CPos (src : list Z) (offset : Z) (obs : option (Z * Z))
 (* position reported by the parser for an offending token put at [offset] *)
 | CSyntax (src : list Z) (offset : Z) (obs : option (Z * Z))
-(* text of an uncaught thrown value *)
-| CText (t : thrown) (obs : list Z)
+(* text of an uncaught thrown value: Error() of what Run returned, and
+   String(e) evaluated by the script just before the throw *)
+| CText (t : thrown) (obs_go obs_js : list Z)
 (* file.FileSet.Position over several files *)
-| CFileSet (files : list (list Z)) (idx : Z) (obs : option (Z * Z * Z)).
+| CFileSet (landed : Z) (files : list (list Z)) (idx : Z) (obs : option (Z * Z * Z)).
+
+(* [landed]: which of the three proposed repairs (proposed_fixes/C19-*.diff) the
+   tree under test already contains, measured by the harness on the pinned
+   witnesses before anything else: bit 0 direct eval restores the caller's file,
+   bit 1 malformed RegExp pattern raises SyntaxError, bit 2 FileSet.Position
+   subtracts the base once.  Every other case is judged against the model with
+   exactly these repairs switched on, so the check stays exact on both sides of
+   such a commit; any other change of behaviour is a violation as before. *)
+Definition base_fixes (landed : Z) : fixes :=
+  mkFixes false (Z.testbit landed 0) false false false false.
+Definition fx_or (a b : fixes) : fixes :=
+  mkFixes (fx_site a || fx_site b) (fx_eval a || fx_eval b) (fx_at a || fx_at b)
+          (fx_nofile a || fx_nofile b) (fx_term a || fx_term b) (fx_char a || fx_char b).
+Definition model_class_l (landed : Z) (kind : Z) : Z :=
+  if (kind =? 26) && Z.testbit landed 1 then 5 else model_class kind.
+
+(* FileSet.Position once repaired: file.Position(idx) of the file that contains idx *)
+Fixpoint fileset_position_fixed_in (l : list (Z * list Z)) (idx : Z) (k : Z) : option (Z * Z * Z) :=
+  match l with
+  | [] => None
+  | (base, s) :: r =>
+      if idx <=? base + zlen s then
+        match file_position base s idx with
+        | Some (ln, c) => Some (k, ln, c)
+        | None => None
+        end
+      else fileset_position_fixed_in r idx (k + 1)
+  end.
+Definition fileset_model (landed : Z) (files : list (list Z)) (idx : Z) :=
+  if Z.testbit landed 2 then fileset_position_fixed_in (fileset_bases files 1) idx 0
+  else fileset_position files idx.
 
 Definition sloc_eqb (a b : sloc) : bool :=
   match a, b with
@@ -53,27 +86,44 @@ Definition cl_fileset := 11.
 
 Definition with_fix (i : Z) : fixes :=
   mkFixes (i =? cl_site) (i =? cl_eval) (i =? cl_at) (i =? cl_nofile) (i =? cl_term) (i =? cl_char).
+Definition without_fix (i : Z) : fixes :=
+  mkFixes (negb (i =? cl_site)) (negb (i =? cl_eval)) (negb (i =? cl_at)) (negb (i =? cl_nofile))
+          (negb (i =? cl_term)) (negb (i =? cl_char)).
 
 Definition trace_with (fx : fixes) files limit levels r := model_trace fx (pos_of fx) files limit levels r.
 
-(* the first listed deviation that is active in this case, provided that all of
-   them together account for the whole difference; 99 otherwise *)
-Fixpoint first_active (cands : list Z) (base : list (Z * sloc)) files limit levels r : Z :=
+(* the first listed deviation that is active in this case (repairing it alone
+   changes what the model prints), provided that all of them together account
+   for the whole difference; when no single repair changes the outcome (two
+   deviations hide the same frame), the first one that cannot be left out; 99
+   otherwise *)
+Fixpoint first_active (b : fixes) (cands : list Z) (base : list (Z * sloc)) files limit levels r : Z :=
   match cands with
   | [] => 99
   | i :: rest =>
-      if trace_eqb (trace_with (with_fix i) files limit levels r) base
-      then first_active rest base files limit levels r else i
+      if trace_eqb (trace_with (fx_or b (with_fix i)) files limit levels r) base
+      then first_active b rest base files limit levels r else i
+  end.
+Fixpoint first_necessary (b : fixes) (cands : list Z) (spec : list (Z * sloc)) files limit levels r : Z :=
+  match cands with
+  | [] => 99
+  | i :: rest =>
+      if trace_eqb (trace_with (fx_or b (without_fix i)) files limit levels r) spec
+      then first_necessary b rest spec files limit levels r else i
   end.
 
-Definition trace_class files limit levels r : Z :=
-  let base := trace_with nofix files limit levels r in
-  if trace_eqb (trace_with allfix files limit levels r) (spec_trace files limit levels r)
-  then first_active [cl_site; cl_eval; cl_at; cl_nofile; cl_term; cl_char] base files limit levels r
+Definition cands := [cl_site; cl_eval; cl_at; cl_nofile; cl_term; cl_char].
+
+Definition trace_class (b : fixes) files limit levels r : Z :=
+  let base := trace_with b files limit levels r in
+  let spec := spec_trace files limit levels r in
+  if trace_eqb (trace_with allfix files limit levels r) spec
+  then (let c := first_active b cands base files limit levels r in
+        if c =? 99 then first_necessary b cands spec files limit levels r else c)
   else 99.
 
 Definition facts_expect (cls : Z -> Z) (msg : Z -> bool) (kind : Z) : list Z :=
-  [cls kind; cls kind; 1; 1; 1; 1; 1; (if msg kind then 1 else 0); 1; 1].
+  [cls kind; cls kind; 1; 1; 1; 1; (if msg kind then 1 else 0); 1; 1].
 
 Definition facts_class (kind : Z) : Z :=
   if negb (model_class kind =? spec_class kind) then
@@ -101,20 +151,25 @@ Definition fileset_spec (files : list (list Z)) (idx : Z) := fileset_spec_in (fi
 
 Definition verdict (c : case) : Z * Z :=
   match c with
-  | CTrace files limit levels r hdr obs =>
+  | CTrace landed files limit levels r hdr obs =>
       if negb hdr then (3, 0) else
-      judge trace_eqb obs (trace_with nofix files limit levels r) (spec_trace files limit levels r)
-            (trace_class files limit levels r)
-  | CFacts kind obs =>
+      let b := base_fixes landed in
+      let model := trace_with b files limit levels r in
+      let spec := spec_trace files limit levels r in
+      if trace_eqb model spec then judge trace_eqb obs model spec 0
+      else judge trace_eqb obs model spec (trace_class b files limit levels r)
+  | CFacts landed kind obs =>
       if negb (known_kind kind) then declined else
-      judge zlist_eqb obs (facts_expect model_class model_msg_nonempty kind)
+      judge zlist_eqb obs (facts_expect (model_class_l landed) model_msg_nonempty kind)
             (facts_expect spec_class spec_msg_nonempty kind) (facts_class kind)
   | CPos src offset obs =>
       judge (option_eqb zz_eqb) obs (file_position_off src offset) (es5_position src offset) (pos_class src offset)
   | CSyntax src offset obs =>
       judge (option_eqb zz_eqb) obs (parser_position_off src offset)
             (es5_position_incl src offset) cl_char
-  | CText t obs => judge zlist_eqb obs (uncaught_text t) (spec_text t) cl_text
-  | CFileSet files idx obs =>
-      judge (option_eqb zzz_eqb) obs (fileset_position files idx) (fileset_spec files idx) cl_fileset
+  | CText t obs_go obs_js =>
+      judge (fun a b => zlist_eqb (fst a) (fst b) && zlist_eqb (snd a) (snd b))
+            (obs_go, obs_js) (uncaught_text t, spec_text t) (spec_text t, spec_text t) cl_text
+  | CFileSet landed files idx obs =>
+      judge (option_eqb zzz_eqb) obs (fileset_model landed files idx) (fileset_spec files idx) cl_fileset
   end.
